@@ -1,20 +1,101 @@
 (** * C02 -- ill-formed input is never reported as a completely parsed document.
 
-    Full statement (DESIGN 5.2), over the model of the implementation:
-      [accepted_is_wellformed : forall s d, from_raw_model s = Ok ([], d) -> wf s = true].
-    What is proved here is listed per theorem; the part that needs the model of
-    parse -> infoset (Model/ParseActions.v, Model/Info.v, another area) is stated in
-    notes/wf_STATUS.md. *)
+    Full statement (DESIGN 5.2), over the model of the implementation
+    (Model/Info.v [from_raw], written from the repaired code):
+
+      accepted_is_wellformed : forall s d, from_raw s = OOk ([], d) -> wf s = true.
+
+    The faithful model REFUTES it ([accepted_is_wellformed_refuted] and the witnesses per
+    finding that stays: D04, WF13, WFNS20-23).  What is proved, closed and for all strings:
+
+    (1) the LEXICAL RUNG of the language inclusion between the regenerated grammar [G_xml]
+        (semantics [run] of Model/Peg.v) and the recognisers of Spec/XmlWF.v: S, Eq, CharRef,
+        CDSect, CharData, Comment exactly; PI, Reference, AttValue exactly outside finding D04
+        (the parser's `name` production), with the refuting witnesses;
+    (2) the inputs of every repaired defect are rejected by the model and ill-formed per spec;
+    (3) the two levels of the specification nest ([wf_is_wf_xml10]).
+
+    Missing for the full conditional theorem
+      forall s d, Known_C02 s = false -> from_raw s = OOk ([], d) -> wf s = true
+    (named [accepted_is_wellformed_partial] in notes/wf_STATUS.md): rungs 2 and 3 of the ladder
+    (element / content / tags against the PEG tree and Model/ParseActions.v; prolog, XML
+    declaration and the DTD productions), and the well-formedness constraints against
+    Model/Info.v [build_document].  Those are covered by the failing-input search of checks/C02.py
+    (specification vs implementation, with expat as independent oracle of the specification). *)
 From Coq Require Import List NArith Bool.
-From XmlRs Require Import Base.CPred Spec.XmlChars Spec.XmlWF.
+From XmlRs Require Import Base.CPred Spec.XmlChars Spec.XmlWF Model.Peg Gen.GrammarXmlGen Model.Info
+  Proofs.NameLanguage Proofs.XmlWFLexical Proofs.XmlWFModel.
 Import ListNotations.
 
-(** namespace-well-formed documents are XML 1.0 well-formed: the two levels of the verdict nest *)
+(** ** (3) *)
 Theorem wf_is_wf_xml10 : forall s, wf s = true -> wf_xml10 s = true.
-Proof.
-  intros s. unfold wf, wf_xml10, verdict_ns, verdict10.
-  destruct (parse_document s) as [d|]; [|discriminate].
-  destruct (unsupported d); [discriminate|].
-  destruct (check_doc d) as [r|root]; [discriminate|]. reflexivity.
-Qed.
+Proof. exact wf_is_wf_xml10_aux. Qed.
+
+(** ** (1) lexical rung: [rest_of (run G_xml R nt_p s)] is what production p of the real parser leaves
+    unread ([None] when it fails), the right-hand sides are the recognisers of Spec/XmlWF.v *)
+Theorem lex_S : forall f s, rest_of (denote G_xml f (Chars1 ws) s) = spec_S s.
+Proof. exact S_language. Qed.
+Theorem lex_Eq : forall s, rest_of (run G_xml R nt_eq s) = spec_Eq s.
+Proof. exact eq_language. Qed.
+Theorem lex_CharRef : forall s, rest_of (run G_xml R nt_char_ref s) = charref_rest s.
+Proof. exact char_ref_language. Qed.
+Theorem lex_CharRef_is_spec : forall u, spec_reference (38 :: 35 :: u)%N = charref_rest (38 :: 35 :: u)%N.
+Proof. exact spec_reference_charref. Qed.
+Theorem lex_CDSect : forall s, rest_of (run G_xml R nt_cdsect s) = spec_cdsect s.
+Proof. exact cdsect_language. Qed.
+Theorem lex_CharData : forall s, rest_of (run G_xml R nt_char_data s) = Some (spec_chardata s).
+Proof. exact char_data_language. Qed.
+Theorem lex_Comment : forall s, rest_of (run G_xml R nt_comment s) = spec_comment s.
+Proof. exact comment_language. Qed.
+Theorem lex_PI_except_D04 : forall s r0, prefix [60;63]%N s = Some r0 ->
+  KnownD04 (fst (span NC r0)) = false -> rest_of (run G_xml R nt_pi s) = spec_pi s.
+Proof. exact pi_language_except_D04. Qed.
+Theorem lex_PI_refuted : exists s r, rest_of (run G_xml R nt_pi s) = Some r /\ spec_pi s = None.
+Proof. exact pi_language_refuted. Qed.
+Theorem lex_Reference_except_D04 : forall s, ref_D04 s = false ->
+  rest_of (run G_xml R nt_reference s) = spec_reference s.
+Proof. exact reference_language_except_D04. Qed.
+Theorem lex_Reference_refuted : exists s r,
+  rest_of (run G_xml R nt_reference s) = Some r /\ spec_reference s = None /\ ref_D04 s = true.
+Proof. exact reference_language_refuted. Qed.
+Theorem lex_AttValue_except_D04 : forall s, no_D04 s = true ->
+  rest_of (run G_xml R nt_att_value s) = spec_attvalue s.
+Proof. exact att_value_language_except_D04. Qed.
+Theorem lex_AttValue_refuted : exists s r,
+  rest_of (run G_xml R nt_att_value s) = Some r /\ spec_attvalue s = None /\ no_D04 s = false.
+Proof. exact att_value_language_refuted. Qed.
+
+(** the hypotheses are satisfiable by non-trivial strings *)
+Example lex_nontrivial :
+  rest_of (run G_xml R nt_comment [60;33;45;45;32;97;45;98;32;45;45;62;120]%N) = Some [120%N] /\
+  no_D04 [34;97;38;108;116;59;38;35;120;52;49;59;34;62]%N = true /\
+  rest_of (run G_xml R nt_att_value [34;97;38;108;116;59;38;35;120;52;49;59;34;62]%N) = Some [62%N].
+Proof. repeat split; vm_compute; reflexivity. Qed.
+
+(** ** the full statement is refuted on the model; the witnesses per finding *)
+Theorem accepted_is_wellformed_refuted : ~ (forall s d, from_raw s = OOk ([], d) -> wf s = true).
+Proof. exact XmlWFModel.accepted_is_wellformed_refuted. Qed.
+Theorem refuted_by_D04 : exists s d, from_raw s = OOk ([], d) /\ wf_xml10 s = false.
+Proof. exact accepted_is_wellformed_refuted_D04. Qed.
+Theorem refuted_by_WF13 : exists s d, from_raw s = OOk ([], d) /\ wf_xml10 s = false.
+Proof. exact accepted_is_wellformed_refuted_WF13. Qed.
+Theorem refuted_by_namespace_constraints : forall w, In w [w_ns20; w_ns21; w_ns22; w_ns23] ->
+  (exists d, from_raw w = OOk ([], d)) /\ wf_xml10 w = true /\ wf w = false.
+Proof. exact accepted_is_wellformed_refuted_NS. Qed.
+
+(** ** (2) *)
+Theorem repaired_defects_are_rejected : forall x,
+  In x [x_d01; x_d02; x_d05; x_d05e; x_d06; x_unparsed; x_extattr; x_recursion; x_undeclared_inner; x_unbalanced; x_pe_in_value] ->
+  accepted x = false /\ wf_xml10 x = false.
+Proof. exact repaired_defects_rejected. Qed.
+
 Print Assumptions wf_is_wf_xml10.
+Print Assumptions lex_Comment.
+Print Assumptions lex_CharData.
+Print Assumptions lex_CDSect.
+Print Assumptions lex_CharRef.
+Print Assumptions lex_PI_except_D04.
+Print Assumptions lex_Reference_except_D04.
+Print Assumptions lex_AttValue_except_D04.
+Print Assumptions accepted_is_wellformed_refuted.
+Print Assumptions repaired_defects_are_rejected.
